@@ -119,6 +119,11 @@ func main() {
 							if ts, ok := sp.(*ast.TypeSpec); ok {
 								if obj, ok := p.TypesInfo.Defs[ts.Name].(*types.TypeName); ok {
 									lines = append(lines, "type:"+shortName(obj.Pkg().Path())+"."+obj.Name()+"\ttype")
+									if st, ok := obj.Type().Underlying().(*types.Struct); ok {
+										for i := 0; i < st.NumFields(); i++ {
+											lines = append(lines, "field:"+shortName(obj.Pkg().Path())+"."+obj.Name()+"."+st.Field(i).Name())
+										}
+									}
 								}
 							}
 						}
